@@ -2,7 +2,7 @@ SPECIFICATION GenSpec
 CONSTANTS
   ReAddOn <- ReAddEnv
   Lng <- LngDef
-  NamePool <- NamePoolDef
+  NamePool <- NamePoolGen
   IdPool <- IdPoolDef
   FreshPool <- FreshPoolDef
   AutoNames <- AutoNamesDef
